@@ -507,7 +507,47 @@ fn serde_attrs(attrs: &[Attribute], derives: &mut bool, out: &mut Vec<String>) {
     // an item-level `#[cfg(..)]` on something that carries serde attributes
     if *derives || !out.is_empty() { for a in attrs { if a.path().is_ident("cfg") { let c = format!("item-cfg:{}", a.meta.require_list().map(|l| toks(&l.tokens)).unwrap_or_default()); SERDE_CONDS.with(|v| { let mut v = v.borrow_mut(); if !v.contains(&c) { v.push(c); } }); } } }
 }
-struct Shapes { out: Vec<(String, String, Vec<String>, Vec<(String, Vec<String>, Vec<String>)>)> }
+/// A field type in a spelling-independent form, so that a respelled but identical type does not change the table: paths are cut to
+/// their last segment (`hash::Hash`, `crate::cryptonote::hash::Hash` -> `Hash`), generic arguments are normalised recursively,
+/// `Box<T>` / `&T` / `(T)` are `T` (serde writes them as `T`), a type alias of the crate is replaced by its target, an array length
+/// is evaluated (integer expressions and `const` items of the crate).
+#[derive(Default)]
+struct TyEnv { consts: std::collections::BTreeMap<String, i128>, aliases: std::collections::BTreeMap<String, Type> }
+fn norm_ty(t: &Type, env: &TyEnv, depth: usize) -> String {
+    match t {
+        Type::Paren(p) => norm_ty(&p.elem, env, depth),
+        Type::Group(g) => norm_ty(&g.elem, env, depth),
+        Type::Reference(r) => norm_ty(&r.elem, env, depth),
+        Type::Array(a) => {
+            let len = eval(&a.len).or_else(|| if let Expr::Path(p) = &a.len { p.path.segments.last().and_then(|s| env.consts.get(&s.ident.to_string()).copied()) } else { None });
+            format!("[{};{}]", norm_ty(&a.elem, env, depth), len.map(|n| n.to_string()).unwrap_or_else(|| toks(&a.len)))
+        }
+        Type::Slice(x) => format!("[{}]", norm_ty(&x.elem, env, depth)),
+        Type::Tuple(x) => format!("({})", x.elems.iter().map(|e| norm_ty(e, env, depth)).collect::<Vec<_>>().join(",")),
+        Type::Path(p) if p.qself.is_none() => {
+            let Some(last) = p.path.segments.last() else { return toks(t) };
+            let name = last.ident.to_string();
+            let args: Vec<String> = match &last.arguments { PathArguments::AngleBracketed(a) => a.args.iter().filter_map(|g| match g { GenericArgument::Type(x) => Some(norm_ty(x, env, depth)), GenericArgument::Lifetime(_) => None, other => Some(toks(other)) }).collect(), _ => vec![] };
+            if name == "Box" && args.len() == 1 { return args[0].clone(); }
+            if args.is_empty() && depth < 4 { if let Some(target) = env.aliases.get(&name) { return norm_ty(target, env, depth + 1); } }
+            if args.is_empty() { name } else { format!("{}<{}>", name, args.join(",")) }
+        }
+        _ => toks(t),
+    }
+}
+thread_local! { static TY_ENV: std::cell::RefCell<TyEnv> = std::cell::RefCell::new(TyEnv::default()); }
+fn nty(t: &Type) -> String { TY_ENV.with(|e| norm_ty(t, &e.borrow(), 0)) }
+struct Shapes { out: Vec<(String, String, Vec<String>, Vec<(String, Vec<String>, Vec<String>)>)>,
+    /// declared TYPE of every field: (item, variant or "", field, type tokens)
+    types: Vec<(String, String, String, String)>,
+    /// `#[cfg(..)]` conditions of the modules enclosing the item being visited (file-level first, then inline modules), outermost first
+    cfgs: Vec<String>,
+    /// per deriving item / hand-written impl: the enclosing conditions (for an impl, its own `#[cfg]` last)
+    enclosing: Vec<(String, Vec<String>)>,
+    /// non-test modules (inline, or out-of-line declarations) carrying a `#[cfg(..)]` that mentions serde: (path, conditions)
+    serde_mods: Vec<(String, Vec<String>)>,
+    modpath: Vec<String> }
+fn cfg_conds(attrs: &[Attribute]) -> Vec<String> { attrs.iter().filter(|a| a.path().is_ident("cfg")).map(|a| a.meta.require_list().map(|l| toks(&l.tokens)).unwrap_or_default()).collect() }
 fn field_list(fs: &Fields, attrs_out: &mut Vec<String>) -> Vec<String> {
     let mut names = vec![];
     for (i, f) in fs.iter().enumerate() {
@@ -519,10 +559,26 @@ fn field_list(fs: &Fields, attrs_out: &mut Vec<String>) -> Vec<String> {
     names
 }
 impl<'a> Visit<'a> for Shapes {
-    fn visit_item_mod(&mut self, m: &'a ItemMod) { let n = m.ident.to_string(); if n != "tests" && n != "test" { visit::visit_item_mod(self, m); } }
+    fn visit_item_mod(&mut self, m: &'a ItemMod) {
+        let n = m.ident.to_string();
+        if n == "tests" || n == "test" { return; }
+        let cs = cfg_conds(&m.attrs);
+        if cs.iter().any(|c| c.contains("serde")) { self.serde_mods.push((self.modpath.iter().chain(std::iter::once(&n)).cloned().collect::<Vec<_>>().join("::"), cs.clone())); }
+        if m.content.is_none() { return; }   // out-of-line: its condition reaches the file through `file_cfgs`
+        let k = self.cfgs.len();
+        self.cfgs.extend(cs); self.modpath.push(n);
+        visit::visit_item_mod(self, m);
+        self.modpath.pop(); self.cfgs.truncate(k);
+    }
+    fn visit_item_impl(&mut self, i: &'a ItemImpl) {
+        if let Some((_, p, _)) = &i.trait_ { let n = p.segments.last().map(|s| s.ident.to_string()).unwrap_or_default();
+            if n == "Serialize" || n == "Deserialize" { let mut c = self.cfgs.clone(); c.extend(cfg_conds(&i.attrs)); self.enclosing.push((format!("{} for {}", n, toks(&i.self_ty)), c)); } }
+    }
     fn visit_item_struct(&mut self, i: &'a ItemStruct) {
         let (mut d, mut a) = (false, vec![]); serde_attrs(&i.attrs, &mut d, &mut a);
         if !d { return; }
+        self.enclosing.push((i.ident.to_string(), self.cfgs.clone()));
+        for (k, f) in i.fields.iter().enumerate() { self.types.push((i.ident.to_string(), String::new(), f.ident.as_ref().map(|x| x.to_string()).unwrap_or_else(|| k.to_string()), nty(&f.ty))); }
         let kind = match &i.fields { Fields::Named(_) => "struct", Fields::Unnamed(u) if u.unnamed.len() == 1 => "newtype", Fields::Unnamed(_) => "tuple", Fields::Unit => "unit" };
         let mut members = vec![];
         for (k, f) in i.fields.iter().enumerate() {
@@ -538,13 +594,17 @@ impl<'a> Visit<'a> for Shapes {
             let parsed = m.mac.parse_body_with(|input: parse::ParseStream| { let attrs = input.call(Attribute::parse_outer)?; let _: Visibility = input.parse()?; let _: Token![struct] = input.parse()?; let id: Ident = input.parse()?; let c; parenthesized!(c in input); let n: LitInt = c.parse()?; let _: Option<Token![;]> = input.parse()?; Ok((attrs, id, n)) });
             if let Ok((attrs, id, n)) = parsed {
                 let (mut d, mut a) = (false, vec![]); serde_attrs(&attrs, &mut d, &mut a);
-                if d { self.out.push((id.to_string(), format!("fixed_hash({})", n.base10_digits()), a, vec![("0".to_string(), vec![], vec![])])); }
+                if d { self.out.push((id.to_string(), format!("fixed_hash({})", n.base10_digits()), a, vec![("0".to_string(), vec![], vec![])]));
+                    self.enclosing.push((id.to_string(), self.cfgs.clone()));
+                    self.types.push((id.to_string(), String::new(), "0".to_string(), format!("[u8;{}]", n.base10_digits()))); }
             }
         }
     }
     fn visit_item_enum(&mut self, i: &'a ItemEnum) {
         let (mut d, mut a) = (false, vec![]); serde_attrs(&i.attrs, &mut d, &mut a);
         if !d { return; }
+        self.enclosing.push((i.ident.to_string(), self.cfgs.clone()));
+        for v in &i.variants { for (k, f) in v.fields.iter().enumerate() { self.types.push((i.ident.to_string(), v.ident.to_string(), f.ident.as_ref().map(|x| x.to_string()).unwrap_or_else(|| k.to_string()), nty(&f.ty))); } }
         let mut members = vec![];
         for v in &i.variants {
             let (mut vd, mut va) = (false, vec![]); serde_attrs(&v.attrs, &mut vd, &mut va);
@@ -558,11 +618,39 @@ fn json_shapes(outdir: &str) {
     fn walk(dir: &std::path::Path, out: &mut Vec<std::path::PathBuf>) { if let Ok(rd) = std::fs::read_dir(dir) { let mut es: Vec<_> = rd.filter_map(|e| e.ok()).map(|e| e.path()).collect(); es.sort(); for p in es { if p.is_dir() { walk(&p, out); } else if p.extension().map(|x| x == "rs").unwrap_or(false) { out.push(p); } } } }
     let mut files = vec![]; walk(std::path::Path::new("/repo/src"), &mut files);
     SERDE_CONDS.with(|v| v.borrow_mut().clear());
-    let mut sh = Shapes { out: vec![] };
+    TY_ENV.with(|e| *e.borrow_mut() = TyEnv::default());
+    let mut sh = Shapes { out: vec![], types: vec![], cfgs: vec![], enclosing: vec![], serde_mods: vec![], modpath: vec![] };
     let mut hand: Vec<String> = vec![];   // hand-written `impl Serialize for T` / `impl Deserialize for T`
+    // module path of a source file (`src/util/amount.rs` -> util::amount; `lib.rs`, `mod.rs` -> the directory) and the `#[cfg(..)]`
+    // conditions of the out-of-line declarations `mod x;` (outside test modules), keyed by the declared module's path
+    let modpath_of = |f: &std::path::Path| -> Vec<String> { let rel = f.strip_prefix("/repo/src").unwrap_or(f).with_extension(""); let mut v: Vec<String> = rel.iter().map(|x| x.to_string_lossy().to_string()).collect(); if matches!(v.last().map(|x| x.as_str()), Some("mod") | Some("lib") | Some("main")) { v.pop(); } v };
+    let mut decl_cfgs: std::collections::BTreeMap<Vec<String>, Vec<String>> = Default::default();
     for f in &files {
         let Ok(text) = std::fs::read_to_string(f) else { continue };
         let Ok(file) = parse_file(&text) else { continue };
+        struct D<'b> { path: Vec<String>, out: &'b mut std::collections::BTreeMap<Vec<String>, Vec<String>> }
+        impl<'a, 'b> Visit<'a> for D<'b> {
+            fn visit_item_mod(&mut self, m: &'a ItemMod) { let n = m.ident.to_string(); if n == "tests" || n == "test" { return; }
+                self.path.push(n);
+                if m.content.is_none() { let cs = cfg_conds(&m.attrs); if !cs.is_empty() { self.out.entry(self.path.clone()).or_default().extend(cs); } } else { visit::visit_item_mod(self, m); }
+                self.path.pop(); }
+        }
+        D { path: modpath_of(f), out: &mut decl_cfgs }.visit_file(&file);
+        // `const N: <int type> = <integer expression>;` and `type A = T;` of the crate (outside tests), for `norm_ty`
+        struct E;
+        impl<'a> Visit<'a> for E {
+            fn visit_item_mod(&mut self, m: &'a ItemMod) { let n = m.ident.to_string(); if n != "tests" && n != "test" { visit::visit_item_mod(self, m); } }
+            fn visit_item_const(&mut self, c: &'a ItemConst) { if let Some(v) = eval(&c.expr) { TY_ENV.with(|e| { e.borrow_mut().consts.insert(c.ident.to_string(), v); }); } }
+            fn visit_item_type(&mut self, t: &'a ItemType) { if t.generics.params.is_empty() { TY_ENV.with(|e| { e.borrow_mut().aliases.insert(t.ident.to_string(), (*t.ty).clone()); }); } }
+        }
+        E.visit_file(&file);
+    }
+    for f in &files {
+        let Ok(text) = std::fs::read_to_string(f) else { continue };
+        let Ok(file) = parse_file(&text) else { continue };
+        let mp = modpath_of(f);
+        sh.modpath = mp.clone();
+        sh.cfgs = (1..=mp.len()).flat_map(|k| decl_cfgs.get(&mp[..k].to_vec()).cloned().unwrap_or_default()).collect();
         sh.visit_file(&file);
         struct H<'b>(&'b mut Vec<String>);
         impl<'a, 'b> Visit<'a> for H<'b> {
@@ -583,6 +671,14 @@ fn json_shapes(outdir: &str) {
     writeln!(s, "/-- hand-written serde impls (`impl … Serialize for T`, `impl … Deserialize<'de> for T`) outside test modules -/\ndef jsonHandWritten : List String := {}", ql(&hand)).unwrap();
     let mut conds = SERDE_CONDS.with(|v| v.borrow().clone()); conds.sort();
     writeln!(s, "/-- the `cfg_attr` conditions under which the serde derives and `serde(..)` attributes above are applied (\"\" = unconditional;\n`item-cfg:…` = a `#[cfg(..)]` on a deriving item itself) -/\ndef jsonCfgConditions : List String := {}", ql(&conds)).unwrap();
+    sh.types.sort_by(|a, b| a.0.cmp(&b.0));   // stable: variants and fields stay in declaration order
+    sh.enclosing.sort(); sh.serde_mods.sort();
+    writeln!(s, "/-- the declared TYPE of every field of the items above, in a spelling-independent form (paths cut to the last segment, `Box<T>` / `&T` = `T`,\ncrate aliases expanded, array lengths evaluated): (item, variant or \"\", field — positional\nones numbered —, type), items by name, fields in declaration order; a `fixed_hash(N)` item is a tuple struct over `[u8;N]` -/\ndef jsonFieldTypes : List (String × String × String × String) := [\n{}]",
+        sh.types.iter().map(|(i, v, f, t)| format!("  ({}, {}, {}, {})", q(i), q(v), q(f), q(t))).collect::<Vec<_>>().join(",\n")).unwrap();
+    writeln!(s, "/-- for every deriving item above and every hand-written impl: the `#[cfg(..)]` conditions of the modules that ENCLOSE it — out-of-line\n`mod x;` declarations on the way to its file, then inline modules, outermost first; for an impl its own `#[cfg(..)]` last -/\ndef jsonEnclosingCfgs : List (String × List String) := [{}]",
+        sh.enclosing.iter().map(|(n, c)| format!("({}, {})", q(n), ql(c))).collect::<Vec<_>>().join(", ")).unwrap();
+    writeln!(s, "/-- every module outside tests (inline, or an out-of-line declaration) whose `#[cfg(..)]` mentions serde: (path, conditions) -/\ndef jsonSerdeModules : List (String × List String) := [{}]",
+        sh.serde_mods.iter().map(|(n, c)| format!("({}, {})", q(n), ql(c))).collect::<Vec<_>>().join(", ")).unwrap();
     s.push_str("end Gen\n");
     std::fs::write(format!("{}/JsonShapes.lean", outdir), s).unwrap();
 }
